@@ -64,6 +64,7 @@ def execute(case):
         par = prog["par"]
         kids = {c: [d for d in range(1, n + 1) if par[d - 1] == c] for c in range(1, n + 1)}
         at_gate = {}
+        giveups = {}
         waiting = set()
         state = {"exc": None, "outer": None, "values": [], "factories": []}
         fin = {}
@@ -182,7 +183,15 @@ def execute(case):
                         log(ev="get.begin", c=c, t=op["ts"][0], n=op["n"], mode=op["x"])
                         waiting.add(c)
                         try:
-                            if op["x"] == "wait":
+                            if op["x"] == "giveup":
+                                with anyio.CancelScope() as gsc:
+                                    giveups[c] = gsc
+                                    v = await get_resource(T, op["n"])
+                                giveups.pop(c, None)
+                                if gsc.cancelled_caught:
+                                    log(ev="get.end", c=c, t=op["ts"][0], n=op["n"], r="gaveup", v=[])
+                                    continue
+                            elif op["x"] == "wait":
                                 v = await get_resource(T, op["n"])
                             elif op["x"] == "opt":
                                 v = await get_resource(T, op["n"], optional=True)
@@ -319,12 +328,17 @@ def execute(case):
                 if a == 0:
                     log(ev="clock.passed")
                     await anyio.sleep(TIMEOUT + 1)
+                elif a >= 100:
+                    if a - 100 not in giveups:
+                        drift = f"specification lets component {a - 100} give up a lookup, but it is not waiting"
+                        break
+                    giveups[a - 100].cancel()
                 else:
                     if a not in at_gate:
                         drift = f"specification releases component {a}, which is not at a gate"
                         break
                     group = [a]
-                    while burst and sched and sched[0] != 0 and sched[0] in at_gate and sched[0] not in group:
+                    while burst and sched and 0 < sched[0] < 100 and sched[0] in at_gate and sched[0] not in group:
                         group.append(sched.pop(0))
                     for b in group:
                         at_gate.pop(b).set()
